@@ -23,8 +23,9 @@ RULE = (
     "resp. the real line for Li2; Nielsen: all legal (n,m) and real x - and dispatcher(*a) is compared with "
     "dispatcher.py_func(*a). Every harvested (function, argument vector) pair is additionally executed in a child "
     "interpreter with NUMBA_DISABLE_JIT=1 (thorough: also compiled with NUMBA_BOUNDSCHECK=1): an IndexError there means the "
-    "production machine code reads outside its array. End-to-end: generated run cards (all schemes, PTO<=3, TMC, scale "
-    "variations) are computed with JIT on (parent) and off (child), operators must agree to quadrature accuracy (1e-12 LO, 1e-6 NLO, "
+    "production machine code reads outside its array. End-to-end: a fixed set of run cards (all schemes, PTO<=3, TMC, scale "
+    "variations; groups of four run back to back in one process on the same grid nodes with changing degree and log flag) "
+    "are computed with JIT on (parent) and off (child), operators must agree to quadrature accuracy (1e-12 LO, 1e-6 NLO, "
     "1e-4 beyond, relative to the tensor scale; the kernels themselves agree to 1e-10). "
     "Non-trivial = kernel called with a harvested vector, or an end-to-end pair with non-zero operators."
 )
@@ -155,9 +156,13 @@ def e2e_cards(tier):
     ]
     if tier == "thorough":
         base = base + [(s, n, p, o.replace("F2", "FL") if "F2" in o else o.replace("FL", "F2"), pto, tmc, sv) for (s, n, p, o, pto, tmc, sv) in base]
-    for scheme, nfff, process, name, pto, tmc, sv in base:
+    for i, (scheme, nfff, process, name, pto, tmc, sv) in enumerate(base):
         th = cards.theory(PTO=pto, FNS=scheme, NfFF=nfff, TMC=tmc, RenScaleVar=sv, FactScaleVar=sv and pto <= 2)
         ob = cards.observables(prDIS=process, ProjectileDIS="neutrino" if process == "CC" else "electron", interpolation_xgrid=[1e-3, 1e-2, 0.1, 0.3, 0.6, 1.0])
+        # one grid, changing basis: the four cards of one e2e case run back to back in one process on the same nodes with
+        # different degree / log flag (anything compiled-only that survives from run to run would be keyed on the nodes)
+        ob["interpolation_polynomial_degree"] = (3, 2, 4, 1)[i % 4]
+        ob["interpolation_is_log"] = i % 3 != 2
         k = [dict(p, y=0.4) for p in kin] if name.startswith("XS") else kin
         ob["observables"] = {name: k}
         out.append({"theory": th, "obs": ob, "name": name})
